@@ -387,6 +387,37 @@ type analyzer struct {
 	funcs map[string]*ast.FuncDecl // compile-package functions and methods by name
 	memo  map[string]reads
 	calls map[string][]string
+	// resolved: expressions (selector x.F, or getter call x.GetF()) that denote a slice- or
+	// map-typed field of a described struct -> that field (order analysis)
+	resolved map[ast.Node]fieldRef
+	analysed map[string]bool // functions reached from some handler
+}
+
+type fieldRef struct {
+	Owner, Field string
+	IsMap        bool
+}
+
+func isContainer(e ast.Expr) (container, isMap bool) {
+	switch t := e.(type) {
+	case *ast.ArrayType:
+		if id, ok := t.Elt.(*ast.Ident); ok && (id.Name == "byte" || id.Name == "uint8") {
+			return false, false
+		}
+		return true, false
+	case *ast.MapType:
+		return true, true
+	}
+	return false, false
+}
+
+func (a *analyzer) noteContainer(n ast.Node, owner string, f *field) {
+	if c, m := isContainer(f.Type); c {
+		if a.resolved == nil {
+			a.resolved = map[ast.Node]fieldRef{}
+		}
+		a.resolved[n] = fieldRef{owner, f.Name, m}
+	}
 }
 
 // cut: the reflective machinery dispatches on dynamic types; a handler's own reads stop there
@@ -451,6 +482,7 @@ func (a *analyzer) typeOf(e ast.Expr, en env, r reads) string {
 		}
 		if owner, f := a.u.fieldOf(xt, t.Sel.Name, 0); f != nil {
 			a.noteRead(xt, owner, t.Sel.Name, r)
+			a.noteContainer(t, owner, f)
 			return a.typeOfField(f, owner)
 		}
 		return ""
@@ -487,6 +519,7 @@ func (a *analyzer) typeOf(e ast.Expr, en env, r reads) string {
 					if gf := getterField(m); gf != "" {
 						if o2, f := a.u.fieldOf(owner, gf, 0); f != nil {
 							a.noteRead(xt, o2, gf, r)
+							a.noteContainer(t, o2, f)
 							return a.typeOfField(f, o2)
 						}
 					}
@@ -703,6 +736,10 @@ func (a *analyzer) closure(fn string) reads {
 			return
 		}
 		seen[n] = true
+		if a.analysed == nil {
+			a.analysed = map[string]bool{}
+		}
+		a.analysed[n] = true
 		r, cs := a.own(n)
 		for q, fs := range r {
 			for f := range fs {
@@ -715,6 +752,253 @@ func (a *analyzer) closure(fn string) reads {
 	}
 	rec(fn)
 	return total
+}
+
+// ---------------------------------------------------------------- order analysis
+//
+// How do the handlers traverse the ORDERED collections of the AST? For every expression of
+// cmd/compile that denotes a slice- or map-typed field of a described struct, the syntactic
+// context says how the collection is used:
+//   range        for … := range x.F          (a slice: source order; a map: Go's random order)
+//   index        x.F[k] with a computed k     (lookup by key / position)
+//   index-const  x.F[0]
+//   len          len(x.F) / cap(x.F)
+//   nilcheck     x.F == nil / != nil
+//   slice        x.F[a:b]
+//   ext:<fun>    passed whole to a function outside the package (sort.Strings, slices.Reverse, …)
+//   other        anything else
+// A collection passed to a package-local function, or bound to a local variable, is followed:
+// the uses of that parameter / variable are reported instead.
+
+type access struct {
+	Fn, Owner, Field string
+	IsMap            bool
+	How              string
+}
+
+func funString(e ast.Expr) string {
+	switch t := e.(type) {
+	case *ast.Ident:
+		return t.Name
+	case *ast.SelectorExpr:
+		return funString(t.X) + "." + t.Sel.Name
+	case *ast.IndexExpr:
+		return funString(t.X)
+	case *ast.ParenExpr:
+		return funString(t.X)
+	}
+	return "?"
+}
+
+// localCallee: name of the package-local function a call goes to ("" if none)
+func (a *analyzer) localCallee(ce *ast.CallExpr) string {
+	switch f := ce.Fun.(type) {
+	case *ast.Ident:
+		if a.funcs[f.Name] != nil {
+			return f.Name
+		}
+	case *ast.IndexExpr: // generic instantiation f[T](…)
+		if id, ok := f.X.(*ast.Ident); ok && a.funcs[id.Name] != nil {
+			return id.Name
+		}
+	case *ast.SelectorExpr:
+		if id, ok := f.X.(*ast.Ident); ok && id.Name == "g" && a.funcs[f.Sel.Name] != nil {
+			return f.Sel.Name
+		}
+	}
+	return ""
+}
+
+// useOf classifies the use of expression e given the chain of its ancestors (innermost last).
+func (a *analyzer) useOf(fn string, e ast.Node, parents []ast.Node, depth int) []string {
+	if len(parents) == 0 || depth > 6 {
+		return []string{"other"}
+	}
+	switch p := parents[len(parents)-1].(type) {
+	case *ast.ParenExpr:
+		return a.useOf(fn, p, parents[:len(parents)-1], depth)
+	case *ast.RangeStmt:
+		if p.X == e {
+			return []string{"range"}
+		}
+	case *ast.IndexExpr:
+		if p.X == e {
+			if _, ok := p.Index.(*ast.BasicLit); ok {
+				return []string{"index-const"}
+			}
+			return []string{"index"}
+		}
+	case *ast.SliceExpr:
+		if p.X == e {
+			return []string{"slice"}
+		}
+	case *ast.BinaryExpr:
+		if id, ok := p.Y.(*ast.Ident); ok && id.Name == "nil" && (p.Op == token.EQL || p.Op == token.NEQ) {
+			return []string{"nilcheck"}
+		}
+	case *ast.CallExpr:
+		if id, ok := p.Fun.(*ast.Ident); ok && (id.Name == "len" || id.Name == "cap") {
+			return []string{"len"}
+		}
+		for i, arg := range p.Args {
+			if arg != e {
+				continue
+			}
+			if callee := a.localCallee(p); callee != "" {
+				return a.paramUse(callee, i, depth+1)
+			}
+			return []string{"ext:" + funString(p.Fun)}
+		}
+	case *ast.AssignStmt:
+		for i, rhs := range p.Rhs {
+			if rhs == e && len(p.Lhs) == len(p.Rhs) {
+				if id, ok := p.Lhs[i].(*ast.Ident); ok && id.Name != "_" {
+					return a.identUse(fn, id.Name, depth+1)
+				}
+			}
+		}
+	}
+	return []string{"other"}
+}
+
+// identUse: every use of the local variable / parameter name in function fn
+func (a *analyzer) identUse(fn, name string, depth int) []string {
+	fd := a.funcs[fn]
+	if fd == nil || fd.Body == nil {
+		return []string{"other"}
+	}
+	set := map[string]bool{}
+	var stack []ast.Node
+	ast.Inspect(fd.Body, func(n ast.Node) bool {
+		if n == nil {
+			stack = stack[:len(stack)-1]
+			return true
+		}
+		if id, ok := n.(*ast.Ident); ok && id.Name == name && len(stack) > 0 {
+			skip := false
+			switch p := stack[len(stack)-1].(type) {
+			case *ast.AssignStmt: // the defining occurrence on the left
+				for _, l := range p.Lhs {
+					if l == n {
+						skip = true
+					}
+				}
+			case *ast.SelectorExpr: // x.name: a field called like the variable
+				if p.Sel == id {
+					skip = true
+				}
+			case *ast.KeyValueExpr:
+				if p.Key == n {
+					skip = true
+				}
+			}
+			if !skip {
+				for _, h := range a.useOf(fn, n, stack, depth) {
+					set[h] = true
+				}
+			}
+		}
+		stack = append(stack, n)
+		return true
+	})
+	if len(set) == 0 {
+		return []string{"unused"}
+	}
+	return sortedKeys(set)
+}
+
+func (a *analyzer) paramUse(fn string, idx, depth int) []string {
+	fd := a.funcs[fn]
+	if fd == nil {
+		return []string{"other"}
+	}
+	i := 0
+	for _, p := range fd.Type.Params.List {
+		for _, nm := range p.Names {
+			if i == idx {
+				return a.identUse(fn, nm.Name, depth)
+			}
+			i++
+		}
+	}
+	return []string{"other"}
+}
+
+// accesses: every resolved container expression inside the functions reached from a handler
+func (a *analyzer) accesses() []access {
+	seen := map[access]bool{}
+	var out []access
+	var fns []string
+	for fn := range a.analysed {
+		fns = append(fns, fn)
+	}
+	sort.Strings(fns)
+	for _, fn := range fns {
+		fd := a.funcs[fn]
+		if fd == nil || fd.Body == nil {
+			continue
+		}
+		var stack []ast.Node
+		ast.Inspect(fd.Body, func(n ast.Node) bool {
+			if n == nil {
+				stack = stack[:len(stack)-1]
+				return true
+			}
+			if ref, ok := a.resolved[n]; ok {
+				for _, h := range a.useOf(fn, n, stack, 0) {
+					ac := access{fn, ref.Owner, ref.Field, ref.IsMap, h}
+					if !seen[ac] {
+						seen[ac] = true
+						out = append(out, ac)
+					}
+				}
+			}
+			stack = append(stack, n)
+			return true
+		})
+	}
+	sort.Slice(out, func(i, j int) bool {
+		x, y := out[i], out[j]
+		if x.Owner != y.Owner {
+			return x.Owner < y.Owner
+		}
+		if x.Field != y.Field {
+			return x.Field < y.Field
+		}
+		if x.Fn != y.Fn {
+			return x.Fn < y.Fn
+		}
+		return x.How < y.How
+	})
+	return out
+}
+
+// orderPairs: a struct that keeps a keyed collection twice — a map[K]V for lookup and a []K
+// for the order (name of one is a prefix of the other's: Properties / PropertiesIndex)
+func (u *universe) orderPairs(names []string) [][3]string {
+	var out [][3]string
+	for _, q := range names {
+		st := u.structs[q]
+		for _, m := range st.Fields {
+			mt, ok := m.Type.(*ast.MapType)
+			if !ok {
+				continue
+			}
+			for _, o := range st.Fields {
+				at, ok := o.Type.(*ast.ArrayType)
+				if !ok || at.Len != nil {
+					continue
+				}
+				if ex.TypeString(at.Elt) != ex.TypeString(mt.Key) {
+					continue
+				}
+				if strings.HasPrefix(o.Name, m.Name) || strings.HasPrefix(m.Name, o.Name) {
+					out = append(out, [3]string{q, m.Name, o.Name})
+				}
+			}
+		}
+	}
+	return out
 }
 
 // ---------------------------------------------------------------- registries
@@ -1026,7 +1310,7 @@ func main() {
 	sort.Strings(names)
 
 	var sb strings.Builder
-	sb.WriteString("import Model.Emit\n/-! Struct tables of node/*.go and data/*.go, the handler registries of cmd/compile and the\nfields each handler reads; call sequences of VM.RunCompiledFile / VM.LoadAndRun. -/\nnamespace Generated.C16CompileNodes\nopen Model.Emit\n\n")
+	sb.WriteString("import Model.Emit\nimport Model.EmitOrder\n/-! Struct tables of node/*.go and data/*.go, the handler registries of cmd/compile and the\nfields each handler reads; call sequences of VM.RunCompiledFile / VM.LoadAndRun. -/\nnamespace Generated.C16CompileNodes\nopen Model.Emit\n\n")
 	sb.WriteString("/-- structs that can occur in an AST handed to `Generator.Emit` -/\ndef structs : List StructDesc := [\n")
 	for i, q := range names {
 		st := u.structs[q]
@@ -1117,13 +1401,36 @@ func main() {
 		fmt.Fprintf(&sb, "/-- calls of `VM.LoadAndRun`, in source order -/\ndef loadAndRunSteps : List String := %s\n\n", leanList(lr))
 	}
 	fmt.Fprintf(&sb, "/-- the `reflect.Ptr` arm of `emitReflectValue` asserts `.(data.GetValue)` without the comma-ok form -/\ndef ptrAssertUnchecked : Bool := %v\n\n", ptrUnchecked)
+	// order facts
+	pairs := u.orderPairs(names)
+	sb.WriteString("/-- structs that keep a keyed collection twice: (struct, map field, slice field that carries the order) -/\ndef orderPairs : List Model.EmitOrder.OrderPair := [")
+	for i, p := range pairs {
+		if i > 0 {
+			sb.WriteString(", ")
+		}
+		fmt.Fprintf(&sb, "⟨%s, %s, %s⟩", ex.LeanString(p[0]), ex.LeanString(p[1]), ex.LeanString(p[2]))
+	}
+	sb.WriteString("]\n\n")
+	accs := an.accesses()
+	sb.WriteString("/-- how the functions reached from the handlers use every slice- or map-typed field of a described struct:\nfunction, struct, field, is-a-map, use (range | index | index-const | len | nilcheck | slice | ext:<fun> | other) -/\ndef accesses : List Model.EmitOrder.Access := [\n")
+	for i, ac := range accs {
+		sep := ","
+		if i == len(accs)-1 {
+			sep = ""
+		}
+		fmt.Fprintf(&sb, "  ⟨%s, %s, %s, %v, %s⟩%s\n", ex.LeanString(ac.Fn), ex.LeanString(ac.Owner), ex.LeanString(ac.Field), ac.IsMap, ex.LeanString(ac.How), sep)
+	}
+	sb.WriteString("]\n\n")
+	if len(accs) == 0 {
+		changed("no container access found in the handlers (order analysis lost its footing)")
+	}
 	sb.WriteString("def tables : Tables := { structs := structs, special := special, scalars := scalars, aux := aux, nodeNeedsTag := nodeNeedsTag, ptrAssertUnchecked := ptrAssertUnchecked }\n\n")
 	sb.WriteString("/-- places where the source no longer has the syntactic shape the translator understands -/\ndef shapeChanged : List String := " + leanList(shape) + "\n\nend Generated.C16CompileNodes\n")
 	if err := ex.WriteIfChanged(a.Out, "C16CompileNodes.lean", sb.String()); err != nil {
 		fmt.Fprintln(os.Stderr, err)
 		os.Exit(1)
 	}
-	fmt.Printf("C16CompileNodes: structs=%d special=%d scalars=%d aux=%d nodeNeedsTag=%v shapeChanged=%d\n", len(names), len(special), len(scalars), len(auxOrder), needsTag, len(shape))
+	fmt.Printf("C16CompileNodes: structs=%d special=%d scalars=%d aux=%d nodeNeedsTag=%v orderPairs=%d accesses=%d shapeChanged=%d\n", len(names), len(special), len(scalars), len(auxOrder), needsTag, len(pairs), len(accs), len(shape))
 	for _, s := range shape {
 		fmt.Println("  shapeChanged:", s)
 	}
